@@ -60,7 +60,7 @@ def variants(base, items, rng, all_positions):
             kind = 4 if rng.random() < 0.35 else 3
             nn = rng.randrange(3)
             if rng.random() < 0.2:      # a builtin exception type (KeyError, IndexError, OSError, StopIteration, …)
-                kind, nn = rng.choice([2, 6, 7, 8, 9, 10, 11, 11, 12]), 0
+                kind, nn = rng.choice([2, 6, 7, 8, 9, 10, 11, 11, 12, 13, 13]), 0
             d.script[(cid, k)] = ((), ('raise', kind, nn))
             extra = None
             if handlers:
@@ -533,7 +533,7 @@ def na_judge(case):
             nn = rng.randrange(3)
             if rng.random() < 0.3:      # a builtin exception type (KeyError, IndexError, OSError, LookupError, …)
                 # (StopIteration only where callbacks are plain functions: a coroutine turns it into RuntimeError)
-                kind, nn = rng.choice([2, 6, 7, 7, 8, 9, 10] + ([] if setup[3] else [11, 11, 12])), 0
+                kind, nn = rng.choice([2, 6, 7, 7, 8, 9, 10, 13] + ([] if setup[3] else [11, 11, 12])), 0
             d.script[(cid, k)] = ((), ('raise', kind, nn))
             if setup[3] and rng.random() < 0.8:
                 # async stages are gathered: the callbacks listed BEFORE the failing one in its stage are still inside
